@@ -382,6 +382,8 @@ class Crazyflie():
                 else:
                     logger.debug('Resend requested, but no pattern found: %s',
                                  self._answer_patterns)
+                    self._send_lock.release()
+                    return
             link.send_packet(pk)
             self.packet_sent.call(pk)
         self._send_lock.release()
